@@ -12,7 +12,7 @@ CHECKS = {
         "sub-language where unbounded and context-width arithmetic agree by construction ('frag'), unrestricted fragments "
         "guarded by a simulator-side monitor that ends a run where the two semantics legitimately part ('wild'), narrow comb "
         "fragments swept over ALL inputs ('exh'), memories with every port mode/granularity/async/re/init in 1-2 clock domains "
-        "('mem'), and 42 real LiteX designs (41 cores or small compositions and a whole CPU-less SoCMini) at seeded parameterisations under random stimulus ('corpus'); seeded clock-edge "
+        "('mem'), designs of different kinds converted and simulated one after the other in one process ('mixed'), and 42 real LiteX designs (41 cores or small compositions and a whole CPU-less SoCMini) at seeded parameterisations under random stimulus ('corpus'); seeded clock-edge "
         "interleavings, reset pulses, process orders. Translation validation per program and input sequence, not a proof of "
         "the printer.",
    note="Trusted base: dsim/vsim.py (ours) and dsim/taint.py (the monitor deciding which runs are outside the agreeing "
@@ -59,7 +59,9 @@ CHECKS = {
         "opposite order; AXILiteClockDomainCrossing is run with the AXI-Lite agents and the byte-memory oracle of C09 (family "
         "AXILiteCDC); UART(phy_cd != sys) is run with software strobes in sys and the stream side in its own domain (family "
         "UART); UARTBone(cd != sys) is run with a host party in the PHY domain sending whole commands back to back and a Wishbone "
-        "memory in sys (family UARTBone: commanded accesses and answer bytes exactly once, in order); stream.Monitor uses the same "
+        "memory in sys (family UARTBone: commanded accesses and answer bytes exactly once, in order); the Gray-counter crossing of "
+        "litex.soc.cores.freqmeter.FreqMeter is family FreqMeter (measurements between two latches add up to the real number of clock "
+        "events up to the synchroniser's latency); stream.Monitor uses the same "
         "MultiReg primitives and is not run separately.",
    tech="deterministic simulation, seeded clock-edge interleaving + per-bit synchroniser-resolution fault injection + reset pulses"),
  "C06": dict(cat="exploration", ref="DESIGN.md 5.C06",
@@ -214,7 +216,8 @@ CHECKS = {
         "(legal START/STOP/bit sequences, programmed phase lengths, data/ack both ways, overlapping commands). Further families: "
         "'spislave' (SPISlave against a pin-level master with edge jitter), 'uart_full' (PHY + FIFOs + event manager behind a real "
         "CSRBank, driven by a software model following LiteX's driver protocol; a third of the runs reprogram a dynamic-baudrate PHY), "
-        "'spimmap' (the SPI master of the memory-mapped SPI core, modes 0-3, against a pin-level slave), 'timeline'. Known finding "
+        "'spimmap' (the SPI master of the memory-mapped SPI core, modes 0-3, against a pin-level slave), 'spiengine' (its transfer engine: "
+        "word streams, programmed chip-select wait, bit order, slot lengths), 'timeline'. Known finding "
         "C19-F1 (SPI length read live). The +-2% UART tolerance is demanded for bit periods >= 16 cycles.",
    tech="deterministic simulation with pin-level peers on skewed clocks, phase/edge-resolution faults, overlapping commands, cycle-exact models"),
 }
